@@ -53,6 +53,7 @@ Inductive op :=
 | OAppSS (x : list byte) (p c : N) | OAppFss (p c : N) | OAppPC (cs : list byte) (k : N)
 | OAppC (cs : list byte) | OAppIt (p q : N)
 | OSprintf (x : list byte)
+| OSprintfFail (wide : bool) (x : list byte)
 | ORepFs (p c : N) | ORepS (p c : N) (x : list byte) | ORepFss (p c p2 c2 : N)
 | ORepSS (p c : N) (x : list byte) (p2 c2 : N) | ORepC (p c : N) (cs : list byte)
 | ORepPC (p c : N) (cs : list byte) (c2 : N) | ORepNC (p c c2 ch : N)
@@ -245,6 +246,23 @@ Definition sprintf_ (s : fs) (text : list byte) : res fs :=
   let k := N.min n L in
   do b <- mcpy (buf s) 0 (take k text ++ [0]) 0 (k + 1);
   fin b (N.min L n).
+
+(** sprintf whose vsnprintf call fails (returns a negative value: a wide
+    character that cannot be converted, or more than INT_MAX characters of
+    output).  vsnprintf has then already stored partial output [w] in the L+1
+    bytes it was given; the length becomes 0 and the terminator is written at 0. *)
+Definition sprintf_fail (s : fs) (w : list byte) : res fs :=
+  do b <- mcpy (buf s) 0 w 0 (nlen w);
+  fin b 0.
+
+(** what glibc 2.36 was observed to leave in the buffer in the two cases (only the
+    bytes behind the terminator depend on it; they are internal observables):
+    for sprintf( "<text>%lc", unconvertible) the text cut at L and a terminator,
+    for sprintf( "<text>%*d%*d", INT_MAX, ., INT_MAX, .) the text padded with
+    blanks to L characters and a terminator *)
+Definition glibc_partial (wide : bool) (text : list byte) : list byte :=
+  let t := take (cstrlen text) text in
+  if wide then take L (t ++ rep 32 L) ++ [0] else take L t ++ [0].
 
 (* ------------------------------------------------------------------ *)
 (** * compare *)
@@ -629,6 +647,7 @@ Definition step (s o : fs) (x : op) : res (fs * fs * ret) :=
   | OAppC cs => upd o (append_impl s (carr cs) 0 (cstrlen cs))
   | OAppIt p q => upd o (append_it s o p q)
   | OSprintf x => upd o (sprintf_ s x)
+  | OSprintfFail wide x => upd o (sprintf_fail s (glibc_partial wide x))
   | ORepFs p c => upd o (replace_impl s p c (buf o) 0 (len o))
   | ORepS p c x => upd o (replace_impl s p c (carr x) 0 (nlen x))
   | ORepFss p c p2 c2 => upd o (replace_sub s p c (buf o) (len o) p2 c2)
